@@ -628,4 +628,16 @@ fn run_local_worker(worker: &Worker, id: usize, parker: Parker, abort_signal: Si
         pool_manager.activate_all_workers();
         executor_unparker.unpark();
     }
+
+    // Move the tasks still held by this worker to the injector queue rather
+    // than letting them be dropped with the worker at thread exit: dropping a
+    // task that was not cancelled yet may wake other tasks, which is only
+    // possible from within a worker. The injector queue is dropped after all
+    // tasks have been cancelled.
+    if let Some(task) = fast_slot.take() {
+        injector.insert_task(task);
+    }
+    while let Some(task) = local_queue.pop() {
+        injector.insert_task(task);
+    }
 }
